@@ -91,6 +91,22 @@ PROPS["C13"] = dict(
                  "the dense variant adds allocations only in mapping tables no request touches, so correct lazy code must produce the same ledger"],
 )
 
+PROPS["C14"] = dict(
+    engine="meta", level="exploration", quick=4000, thorough=200000,
+    rule=("one evaluation = one seeded metadata-rich image (QCOW2 extensions/backing name/snapshot table; VHDX metadata items, "
+          "parent locator and dual headers with a stale slot; VMDK embedded or standalone descriptor with ddb entries and extent "
+          "lines; VHD footer/dynamic header; VDI header; Parallels descriptor with storages, images, shots, TopGUID) opened by "
+          "the real reader; every exposed attribute is compared with the value the writer stored. distinct = (format, counts of "
+          "snapshots/extensions/locator entries/extents/ddb keys, variant flags) tuples; every case is non-trivial (it carries "
+          "at least the mandatory metadata set)."),
+    expected_probes=["meta.kind_" + k for k in ("qcow2", "vhdx", "vmdk", "vhd", "vdi", "hdd")] +
+                    ["meta.qcow2_ext_len_mod8_%d" % i for i in range(8)] + ["meta.qcow2_snap_entry_mod8_%d" % i for i in range(8)] +
+                    ["meta.qcow2_snap_extra_%d" % i for i in (0, 16, 24, 32, 40)] + ["meta.vhdx_newer_header_slot_0", "meta.vhdx_newer_header_slot_1",
+                     "meta.vmdk_hosted", "meta.vmdk_stream", "meta.vmdk_standalone"],
+    assumptions=["format identifiers the reader documents as case-normalised (QCOW2 backing format) are compared case-insensitively",
+                 "descriptor values avoid embedded double quotes and leading/trailing blanks inside quotes (no defined escaping)"],
+)
+
 NOT_BUILT_REASON = "check not built yet in this session (see DESIGN.md section 11 for the build order); not claimed until its engine exists"
 
 NOT_APPLICABLE = {
@@ -105,6 +121,9 @@ _DISK_NOTE = ("trusted base: the writer stub's reading of the format, the refere
 _DISK_TECH = "deterministic simulation (stub writer peer + simulated storage + reference model oracle), seeded search, ddmin replay"
 
 MANIFEST_TEXT = {
+    "C14": dict(text="seeded deterministic simulation, fault-free configuration plus writer crash states (stale secondary header): "
+                     "metadata recorded by the stub writer vs attributes exposed by the reader; sampled",
+                design_ref="DESIGN.md 4/C14", note=_DISK_NOTE, technique="deterministic simulation (stub writer records stored metadata; invariant at acquisition; header-update crash states)"),
     "C13": dict(text="seeded deterministic simulation on sparse virtual storage with an I/O ledger: absolute budgets, a sparse/dense "
                      "metamorphic pair with identical expected ledgers, and content at extreme offsets; sampled",
                 design_ref="DESIGN.md 4/C13", note=_DISK_NOTE + "; budget constants are generous and linear in request + touched metadata",
